@@ -25,6 +25,7 @@ type Config struct {
 	NS        bool   `json:"ns,omitempty"`         // compile with CompileWithNS({x: urn:x, y: urn:y}) instead of Compile
 	NSSwap    bool   `json:"ns_swap,omitempty"`    // with NS: bind x->urn:y and y->urn:x instead of x->urn:x, y->urn:y
 	NSRebind  bool   `json:"ns_rebind,omitempty"`  // compile every expression once, then re-bind the prefixes in the same map object before the tasks start
+	Must      bool   `json:"must,omitempty"`       // compile through MustCompile instead of Compile
 	Pristine  bool   `json:"pristine,omitempty"`   // also compute every reference outcome in a pristine child process
 }
 
@@ -108,7 +109,7 @@ func genDocs(r *Rng, maxNodes int) []DocSpec {
 }
 
 func baseCfg(r *Rng) Config {
-	c := Config{CacheCap: -1, PoolMode: r.Intn(2), Faults: !r.Chance(1, 4), NS: r.Chance(1, 5), NSSwap: r.Chance(1, 2), Pristine: r.Chance(1, 100)}
+	c := Config{CacheCap: -1, PoolMode: r.Intn(2), Faults: !r.Chance(1, 4), NS: r.Chance(1, 5), NSSwap: r.Chance(1, 2), Pristine: r.Chance(1, 100), Must: r.Chance(1, 8)}
 	if r.Chance(1, 3) {
 		c.CacheCap = []int{0, 1, 2, 3, 5}[r.Intn(5)]
 	}
